@@ -59,6 +59,7 @@ class PrimitiveTree(list):
 
     def __deepcopy__(self, memo):
         new = self.__class__(self)
+        memo[id(self)] = new
         new.__dict__.update(copy.deepcopy(self.__dict__, memo))
         return new
 
